@@ -201,7 +201,7 @@ def task_c12_receive(which):
         try:
             I.do_await(I.call(IBound(f, h), [], {}))
         except IRaise as e:
-            run.fail("C12|%s/receive-loop-raises-nothing-for-any-bytes-read" % label, "raised %s" % e)
+            run.fail("C12,C02|%s/receive-loop-raises-nothing-for-any-bytes-read" % label, "raised %s" % e)
             return
         # reached only through `break` (EOF): fine
         run.cover("cover[%s]/eof" % label)
@@ -260,7 +260,7 @@ def task_client_receive():
         try:
             I.do_await(I.call(IBound(f, h), [], {}))
         except IRaise as e:
-            run.fail("C15|client.tcp.wait_for_messages/receive-loop-raises-nothing-for-any-bytes-read", "raised %s" % e)
+            run.fail("C15,C02|client.tcp.wait_for_messages/receive-loop-raises-nothing-for-any-bytes-read", "raised %s" % e)
             return
         run.cover("cover[client.tcp]/eof")
     return task
